@@ -71,29 +71,20 @@ Theorem C11_every_plan_same_rows :
 Proof. exact exec_plan_rows. Qed.
 Print Assumptions C11_every_plan_same_rows.
 
-(* "ORDER BY output is sorted by the SQL comparison" is REFUTED on the code as it is: with an
-   index on a, `ORDER BY a NULLS LAST` is served by the index, which yields NULLs first
-   (Index.coversOrdCols ignores OrdExp.nullsOrder). Witness replayed on the Go engine. *)
-Theorem C11_order_by_sorted_refuted :
-  exists (pfx_of : index -> bytes) (idxs : list index) (t : list row) (q : query) (pl : plan),
-    table_ok t = true /\ pred_ok (q_where q) = true /\ gen_plan pfx_of idxs q = Some pl /\
-    ~ ord_sorted (q_order q) (exec_plan pfx_of t q pl).
-Proof. exact order_by_sorted_refuted_lemma. Qed.
-Print Assumptions C11_order_by_sorted_refuted.
-
-(* The strongest true statement: the output IS sorted by the sort reader's comparison for every
-   plan that sorts explicitly, and for every index-served ORDER BY (coversOrdCols: index prefix, or
-   leading columns pinned by equality ranges; ASC or DESC) whose NULL placement is the index's. *)
-Theorem C11_order_by_sorted_partial :
+(* ORDER BY output is sorted by the SQL comparison of the ordering columns (the sort reader's
+   comparator: ASC/DESC per column, NULLS FIRST/LAST honoured), for EVERY plan: explicit sort, or
+   index-served ORDER BY whenever coversOrdCols accepts the index (index prefix, or leading columns
+   pinned by equality ranges; one direction; no NULLS clause opposite to the index's placement --
+   the rule as fixed by f375c29, before which this statement was refuted). *)
+Theorem C11_order_by_sorted :
   forall (pfx_of : index -> bytes) (idxs : list index) (t : list row) (q : query) (pl : plan),
     table_ok t = true -> pred_ok (q_where q) = true ->
     gen_plan pfx_of idxs q = Some pl ->
-    p_sort pl = true \/ forallb nulls_default (q_order q) = true ->
     ord_sorted (q_order q) (exec_plan pfx_of t q pl).
-Proof. exact order_by_sorted_partial_lemma. Qed.
-Print Assumptions C11_order_by_sorted_partial.
+Proof. exact order_by_sorted_lemma. Qed.
+Print Assumptions C11_order_by_sorted.
 
-(* With a total ORDER BY (it mentions the primary key; default NULL placement) the result
+(* With a total ORDER BY (it mentions the primary key) the result
    SEQUENCE, LIMIT/OFFSET window included, is the same for any two available index sets and any
    two USE INDEX choices. *)
 Theorem C11_total_order_plan_independent :
@@ -101,7 +92,6 @@ Theorem C11_total_order_plan_independent :
          (u u' : option (list col)) (pl pl' : plan),
     table_ok t = true -> NoDup (map r_id t) -> pred_ok (q_where q) = true ->
     In CId (map o_col (q_order q)) ->
-    forallb nulls_default (q_order q) = true ->
     gen_plan pfx_of idxs (mkQuery (q_where q) (q_order q) (q_limit q) (q_offset q) u) = Some pl ->
     gen_plan pfx_of' idxs' (mkQuery (q_where q) (q_order q) (q_limit q) (q_offset q) u') = Some pl' ->
     exec pfx_of idxs t (mkQuery (q_where q) (q_order q) (q_limit q) (q_offset q) u) =
